@@ -34,6 +34,8 @@ package sumdb
 //@   props C13 C01
 //@ func (*Client).checkTrees
 //@   requires c != nil
+//@   # each tree comes with its own signed note: these are the two heads a fork report shows to the security callback
+//@   requires [C13] notes_belong_to_trees: HEAD(older, string(olderNote)) && HEAD(newer, string(newerNote))
 //@   modifies "map[tlog.Tile]bool", ghost.WRITTEN, []tlog.Hash
 //@   ensures [C13] consistent: result == nil ==> older.N > newer.N || CONS(older, newer)
 //@   loop 0:
@@ -64,4 +66,44 @@ package sumdb
 //@   requires c != nil
 //@   modifies Client.latest, Client.latestMsg, ghost.LOCKSNAP, "map[tlog.Tile]bool", ghost.WRITTEN, []tlog.Hash
 //@   call ClientOps.WriteCache requires [C01] cache_authenticated: RECORDOK(string(arg_data))
+//@   # what the closure hands back to Lookup as data is a response whose record was authenticated, from cache or network alike
+//@   ensures [C01] returned_authenticated: typeof(result) == typeid("cached") && (unbox(result, "cached").err == nil ==> RECORDOK(string(unbox(result, "cached").data)))
+//@   props C01
+
+//@ # ---------- tile plumbing: the tile cache is written by SaveTiles only, with exactly the tiles it was given ----------
+//@ func (*Client).tileCacheKey
+//@   allocates
+//@   trusted "string concatenation of the client name and the tile path"
+//@   props C01
+//@ func (*Client).tileRemotePath
+//@   allocates
+//@   trusted "string concatenation with the tile path"
+//@   props C01
+//@ func (*Client).markTileSaved
+//@   allocates
+//@   modifies "map[tlog.Tile]bool"
+//@   trusted "records the tile in c.tileSaved under tileSavedMu; touches nothing else"
+//@   props C01
+
+//@ # reading a tile (cache, then network) never writes the cache: what was read is not authenticated yet.
+//@ # Preconditions on the tile shape are those of tiles planned by tlog.TileHashReader (assumed here: the caller
+//@ # ReadTiles runs readTile in goroutines and is outside the verified subset)
+//@ func (*Client).readTile$1
+//@   requires c != nil && 1 <= tile.H && tile.H <= 30 && 1 <= tile.W && tile.W <= pow2(tile.H)
+//@   modifies "map[tlog.Tile]bool"
+//@   allocates
+//@   call ClientOps.WriteCache requires [C01] no_write_before_authentication: false
+//@   call ClientOps.WriteConfig requires [C01] no_config_write_here: false
+//@   props C01
+
+//@ # SaveTiles writes only tiles it was handed (authenticated by its caller, tlog's ReadHashes: C10), under their own names
+//@ func (*tileReader).SaveTiles
+//@   requires r != nil && r.c != nil && r.c.tileSaved != nil && len(data) == len(tiles)
+//@   modifies "map[tlog.Tile]bool", Client.latest, Client.latestMsg, ghost.LOCKSNAP
+//@   allocates
+//@   call ClientOps.WriteCache requires [C01] saves_only_given_tiles: exists k int :: 0 <= k && k < len(tiles) && arg_data == data[k] && arg_file == r.c.name + "/" + tiles[k].Path()
+//@   loop 0:
+//@     invariant 0 - 1 <= @idx && @idx < len(tiles) && len(save) == len(tiles) && c == r.c
+//@   loop 1:
+//@     invariant 0 - 1 <= @idx && @idx < len(tiles) && len(save) == len(tiles) && c == r.c
 //@   props C01
